@@ -129,7 +129,10 @@ def _res_bool(f, *args):
 
 def run_case(op: str, args: list, stdout_encoding: str = "utf-8") -> str:
     """execute one protocol case against the real library; returns the canonical answer string"""
-    a = [materialize(x) if not (op == "key" and x is args[0]) else x for x in args]
+    if op == "build":
+        a = list(args)
+    else:
+        a = [materialize(x) if not (op == "key" and x is args[0]) else x for x in args]
     with quiet_stdout(stdout_encoding):
         return _run(op, a)
 
@@ -184,6 +187,30 @@ def _run(op: str, a: list) -> str:
             return "E " + classify(e)
         with open(fn, "rb") as f:
             return "B " + f.read().hex()
+    if op == "build":
+        import datetime as _dt
+
+        from conda_content_trust import metadata_construction as mc
+
+        which, now_a, now_b, params = a[0], a[1], a[2], a[3]
+        readings = [now_a, now_b]
+
+        class FakeDT(_dt.datetime):
+            @classmethod
+            def utcnow(cls):
+                return readings.pop(0) if readings else now_b
+
+        old = common.datetime
+        common.datetime = FakeDT
+        try:
+            kw = {k: materialize(v) for k, v in params.items() if not (isinstance(v, proto.Opaque) and v.tag == 99)}
+            f = mc.build_delegating_metadata if which == "delegating" else mc.build_root_metadata
+            try:
+                return "V " + proto.enc(f(**kw))
+            except Exception as e:  # noqa: BLE001
+                return "E " + classify(e)
+        finally:
+            common.datetime = old
     if op == "key":
         fn, rest = a[0], a[1:]
         C, P = common.PrivateKey, common.PublicKey
@@ -219,4 +246,18 @@ def enc_case(op: str, args: list) -> str:
         return "parse " + bytes(args[0]).hex()
     if op == "key":
         return f"key {args[0]} " + " ".join(proto.enc(x) for x in args[1:])
+    if op == "build":
+        which, a, b, params = args
+        # the library reads the clock once per defaulted field, in call order; the model takes one reading per purpose
+        if which == "delegating":
+            first, second = a, (b if params.get("timestamp") is None else a)          # (timestamp reading, expiration reading)
+        else:
+            first, second = a, (b if params.get("root_expiration") is None else a)    # (expiration reading, timestamp reading)
+        clock = " ".join(f"{d.year} {d.month} {d.day} {d.hour} {d.minute} {d.second}" for d in (first, second))
+        order = (["metadata_type", "delegations", "version", "timestamp", "expiration"] if which == "delegating" else
+                 ["root_version", "root_pubkeys", "root_threshold", "key_mgr_pubkeys", "key_mgr_threshold", "root_timestamp", "root_expiration"])
+        defaults = {"version": 1}
+        optional = {"delegations", "timestamp", "expiration", "root_timestamp", "root_expiration"}
+        vals = [proto.Opaque(99) if (k in optional and params.get(k, 0) is None) else params.get(k, defaults.get(k, proto.Opaque(99))) for k in order]
+        return f"build {which} {clock} " + " ".join(proto.enc(v) for v in vals)
     return " ".join([op] + [proto.enc(x) for x in args])
